@@ -17,6 +17,7 @@ EXPLANATION = (
     "(e) a state point edit keeps the old id only if old and new id are equal (values that are == in Python but differ as JSON re-key the job). "
     "Each json.dumps option is a separate obligation because each one changes the digest for some state point."
     ' (h) Assigning a state point to a fresh handle resets a collection that was created empty (never one the lazy getter has just filled); an id given to a handle together with a state point is the cache key of that state point or calc_id of it, never a table look-up keyed by ==.'
+    ' (i) a schema import files a directory only under the state point its own state point file holds: the path-derived and the file state point are compared as values (C01-i, from C16-n); a functools.partial that fixes validate=False is a call configuration like any other.'
 )
 UNDECIDED = ("That json.dumps(sort_keys=True) sorts at every level, float/int formatting, distinctness of ids for distinct "
              "JSON values and agreement with published golden ids are stdlib semantics / value-level facts and are not decided.")
